@@ -149,6 +149,10 @@ func runC15(c *engine.Ctx) {
 	}
 	c.Floor(len(gates), 5)
 
+	// ---- R8 one list per method; R9 the close notification reaches every plugin ----
+	checkOwnList(c, mgr, handleObj)
+	checkCloseNotifiesAll(c, handleObj)
+
 	// ---- R3 transport fails closed ----
 	c.Rule("R3", "httpPlugin.do returns nil only as json.Unmarshal's result on a path with StatusCode==200; httpPlugin.Handle returns a non-nil error whenever do did")
 	n := 0
@@ -810,4 +814,77 @@ func registerTable(c *engine.Ctx, regFn *ssa.Function, mgr *types.Named, isSuppo
 			c.Hold("pkg/plugin/server.Manager.Register>"+r.list.Name(), regFn.Pos(), 1, []string{"table row: " + r.op + " -> " + r.list.Name()}, "append to %s only under IsSupport of its op (table row)", r.list.Name())
 		}
 	}
+}
+
+// checkOwnList (R8): a gate method's fast path ("no plugin registered for this op: accept") and its loop must look at the
+// same list. A fast path that tests a sibling list lets the operation through ungated whenever that sibling is empty.
+func checkOwnList(c *engine.Ctx, mgr *types.Named, handleObj *types.Func) {
+	c.Rule("R8", "every Manager method that consults plugins reads exactly one of the Manager's plugin lists (emptiness test and loop use the same list)")
+	p := c.P
+	st, _ := mgr.Underlying().(*types.Struct)
+	n := 0
+	for i := 0; i < mgr.NumMethods(); i++ {
+		m := mgr.Method(i)
+		f := p.FuncOf(m)
+		if f == nil || len(engine.CallsTo(f, handleObj)) == 0 {
+			continue
+		}
+		seen := map[string]bool{}
+		engine.ForEachInstr(f, func(in ssa.Instruction) {
+			fa, ok := in.(*ssa.FieldAddr)
+			if !ok || st == nil {
+				return
+			}
+			if engine.NamedOf(engine.Deref(fa.X.Type())) != mgr {
+				return
+			}
+			fv := st.Field(fa.Field)
+			if _, isSlice := fv.Type().Underlying().(*types.Slice); isSlice {
+				seen[fv.Name()] = true
+			}
+		})
+		var names []string
+		for k := range seen {
+			names = append(names, k)
+		}
+		sort.Strings(names)
+		n++
+		c.Check(len(names) == 1, "pkg/plugin/server.Manager."+m.Name()+">own-list", f.Pos(), 1, names,
+			"the method reads one plugin list (reads: %s)", strings.Join(names, ", "))
+	}
+	c.Floor(n, 6)
+}
+
+// checkCloseNotifiesAll (R9): CloseProxy is a notification, not a gate: a plugin that fails must not keep the remaining
+// plugins from hearing that the proxy is gone (they would account for it forever).
+func checkCloseNotifiesAll(c *engine.Ctx, handleObj *types.Func) {
+	c.Rule("R9", "Manager.CloseProxy: after a plugin's Handle returned (with or without error) the function returns only through the loop head, i.e. after the remaining plugins were notified")
+	f := fn(c, "pkg/plugin/server.Manager.CloseProxy")
+	if f == nil {
+		return
+	}
+	n := 0
+	for _, hc := range engine.CallsTo(f, handleObj) {
+		h := engine.LoopHeader(hc.Block())
+		if h == nil {
+			c.Undecide("pkg/plugin/server.Manager.CloseProxy>notifies-all", hc.Pos(), "the Handle call is not inside a loop")
+			continue
+		}
+		n++
+		hdrIf := h.Instrs[len(h.Instrs)-1]
+		c.AllPaths("pkg/plugin/server.Manager.CloseProxy>notifies-all", engine.PathCheck{Fn: f, From: hc, Sink: engine.IsReturn,
+			Event: func(in ssa.Instruction) string {
+				if in == hdrIf {
+					return "loop-head"
+				}
+				return ""
+			},
+			Pred: func(st *engine.PathState) string {
+				if !st.HasEvent("loop-head") {
+					return "CloseProxy returns from inside the loop: the plugins after the failing one are never told the proxy was closed"
+				}
+				return ""
+			}}, "return only after the list is exhausted")
+	}
+	c.Floor(n, 1)
 }
